@@ -144,6 +144,9 @@ func (r *runner) coqCase(conc bool) string {
 		sb.WriteString("CSeq ")
 	}
 	sb.WriteString(hlib.Bool(r.h.Prefix) + " ")
+	if !conc {
+		sb.WriteString(hlib.Bool(r.h.Queue) + " ")
+	}
 	sb.WriteString(coqTable(r.h.Keys))
 	sb.WriteString(" ")
 	sb.WriteString(coqTable(r.h.Vals))
